@@ -638,10 +638,13 @@ impl<'a> TokenLexer<'a> {
 
         match id {
             "else" => {
-                if self
-                    .source
-                    .get(self.current_byte..self.current_byte + char_bytes + 3)
-                    == Some("else if")
+                let else_if_end = self.current_byte + char_bytes + 3;
+                if self.source.get(self.current_byte..else_if_end) == Some("else if")
+                    // `if` has to end at a word boundary: `else iffy` is `else` followed by an id
+                    && !self.source[else_if_end..]
+                        .chars()
+                        .next()
+                        .is_some_and(is_id_continue)
                 {
                     self.advance_line(7);
                     return ElseIf;
